@@ -336,6 +336,13 @@ func runC02(c *Ctx) {
 			}
 		}
 		if guard == nil {
+			// a helper extracted from a guarded function: every live call of it is a direct call,
+			// on the far side of the caller's own depth guard, that hands over the caller's depth
+			// unchanged - the guard of the caller is the guard of the helper
+			if why, ok := guardedAtCallers(p, fn, dp, unknownFn, inEng); ok {
+				r.Discharge("R02.2", name, "depth guard", p.Pos(fn.Pos()), why)
+				continue
+			}
 			r.Violate("R02.2", name, "depth guard", p.Pos(fn.Pos()), "no guard 'depth <= 0' / 'depth < 0' returning the cut-off result (UnknownMemberFunc) found: the function keeps expanding below the limit")
 			continue
 		}
@@ -575,18 +582,62 @@ func r021Expand(c *Ctx) {
 		if fn.Parent() != nil || depthParam(fn) == nil {
 			continue
 		}
-		// self-recursive call
+		// only the function that clamps the depth against the global limit (a helper on the cycle
+		// passes its depth on unchanged; the decrease along the cycle is R09.1's)
+		clamps := false
+		core.Instrs(fn, func(_ *ssa.BasicBlock, _ int, ins ssa.Instruction) {
+			if v, ok := ins.(ssa.Value); ok && isMaxReadDepthCall(v) {
+				clamps = true
+			}
+		})
+		if !clamps {
+			continue
+		}
+		// the recursive call: to fn itself, or to a helper of the package that calls back into fn
+		// (the loop over the children extracted into a function)
+		reachesFn := func(g *ssa.Function) bool {
+			seen := map[*ssa.Function]bool{}
+			var dfs func(f *ssa.Function, depth int) bool
+			dfs = func(f *ssa.Function, depth int) bool {
+				if f == fn {
+					return true
+				}
+				if seen[f] || depth > 3 || f.Blocks == nil || core.FuncPkg(f) != core.FuncPkg(fn) {
+					return false
+				}
+				seen[f] = true
+				found := false
+				for _, cl := range core.Closures(f) {
+					core.Instrs(cl, func(_ *ssa.BasicBlock, _ int, ins ssa.Instruction) {
+						if ci, ok := ins.(ssa.CallInstruction); ok && !found {
+							if sc := ci.Common().StaticCallee(); sc != nil && dfs(sc, depth+1) {
+								found = true
+							}
+						}
+					})
+				}
+				return found
+			}
+			return dfs(g, 0)
+		}
 		core.Instrs(fn, func(_ *ssa.BasicBlock, _ int, ins ssa.Instruction) {
 			cv, ok := ins.(*ssa.Call)
-			if !ok || cv.Common().StaticCallee() != fn {
+			if !ok || cv.Common().StaticCallee() == nil {
 				return
 			}
-			dp := depthParam(fn)
+			callee := cv.Common().StaticCallee()
+			if callee != fn && !(depthParam(callee) != nil && reachesFn(callee)) {
+				return
+			}
+			dp := depthParam(callee)
 			idx := -1
-			for i, q := range fn.Params {
+			for i, q := range callee.Params {
 				if q == dp {
 					idx = i
 				}
+			}
+			if idx < 0 || idx >= len(cv.Common().Args) {
+				return
 			}
 			arg := cv.Common().Args[idx]
 			// the value the recursion continues with is X in X-1
@@ -1109,4 +1160,75 @@ func r024(c *Ctx) {
 		})
 	}
 	r.Floor("R02.4", 3, "two schema minimums and the truncation slice")
+}
+
+// depthGuardOf: the If of fn that tests its depth parameter dp against 0 (<= or <) and returns the
+// cut-off result on the true side.
+func depthGuardOf(fn *ssa.Function, dp *ssa.Parameter, unknownFn *ssa.Function) *ssa.If {
+	var guard *ssa.If
+	for _, b := range fn.Blocks {
+		if len(b.Instrs) == 0 {
+			continue
+		}
+		ifi, ok := b.Instrs[len(b.Instrs)-1].(*ssa.If)
+		if !ok {
+			continue
+		}
+		op, x, y, ok := core.BinCmp(ifi.Cond)
+		if !ok || core.ValueOrigin(x) != ssa.Value(dp) {
+			continue
+		}
+		k, isK := core.IntConst(y)
+		if !isK || k != 0 || (op != token.LEQ && op != token.LSS) {
+			continue
+		}
+		for _, ins := range b.Succs[0].Instrs {
+			if ret, ok := ins.(*ssa.Return); ok && len(ret.Results) == 1 {
+				if f, ok := ret.Results[0].(*ssa.Function); ok && f == unknownFn {
+					guard = ifi
+				}
+			}
+		}
+	}
+	return guard
+}
+
+func guardedAtCallers(p *core.Program, fn *ssa.Function, dp *ssa.Parameter, unknownFn *ssa.Function, inEng map[*ssa.Function]bool) (string, bool) {
+	if dp == nil || (fn.Object() != nil && fn.Object().Exported()) {
+		return "", false
+	}
+	idx := -1
+	for i, q := range fn.Params {
+		if q == dp {
+			idx = i
+		}
+	}
+	kg := p.KG()
+	live, _ := kg.Live()
+	n := 0
+	var callers []string
+	for _, e := range kg.In[fn] {
+		if !live[e.Caller] {
+			continue
+		}
+		ci, isCall := e.Site.(ssa.CallInstruction)
+		top := core.Outermost(e.Caller)
+		if e.Kind != "static" || !isCall || idx < 0 || idx >= len(ci.Common().Args) || !inEng[top] || e.Caller != top {
+			return "", false
+		}
+		cdp := depthParam(top)
+		if cdp == nil || core.ValueOrigin(ci.Common().Args[idx]) != ssa.Value(cdp) {
+			return "", false
+		}
+		g := depthGuardOf(top, cdp, unknownFn)
+		if g == nil || !core.EdgeDominates(g.Block(), 1, e.Site.Block()) {
+			return "", false
+		}
+		n++
+		callers = append(callers, core.FuncName(top))
+	}
+	if n == 0 {
+		return "", false
+	}
+	return "no guard of its own: it is only called, with the caller's depth unchanged, on the far side of the depth guard of " + strings.Join(dedupe(sortStrings(callers)), ", "), true
 }
